@@ -445,7 +445,7 @@ Section MetaP.
 
   (* serialisation: load_event (dump_event e id) gives back name, args, kwargs, flags, channels, id *)
   Definition wf_event (e : event) : Prop :=
-    existsb (N.eqb 0) (ename e) = false /\
+    existsb (N.eqb 0) (ename e) = false /\ existsb surrogate (ename e) = false /\
     mem_str k__name (map fst (ekwargs e)) = false /\ mem_str k_cls (map fst (ekwargs e)) = false /\
     mem_str k_self (map fst (ekwargs e)) = false /\
     forallb hashable (echannels e) = true.
@@ -456,7 +456,7 @@ Section MetaP.
              efailure := efailure e; enotify := enotify e; echannels := echannels e;
              eattrs := apply_meta excl (dump_meta_ev excl e) [] |}, id).
   Proof.
-    intros e id (Hn & H1 & H2 & H3 & Hh). unfold load_event, event_data.
+    intros e id (Hn & Hsu & H1 & H2 & H3 & Hh). unfold load_event, event_data.
     change (get k_name _) with (Some (JStr (ename e))).
     change (get k_args _) with (Some (JArr (eargs e))).
     change (get k_kwargs _) with (Some (JObj (ekwargs e))).
@@ -466,7 +466,7 @@ Section MetaP.
     change (get k_channels _) with (Some (JArr (echannels e))).
     change (get k_meta _) with (Some (JObj (dump_meta_ev excl e))).
     change (get k_id _) with (Some id).
-    cbn [iter_json as_dict truthy]. rewrite H1, H2, H3, Hn, Hh. reflexivity.
+    cbn [iter_json as_dict truthy]. rewrite H1, H2, H3, Hn, Hsu, Hh. reflexivity.
   Qed.
 
   Theorem serial_attrs : forall e k, NoDup (map fst (eattrs e)) ->
@@ -515,7 +515,7 @@ Section MetaP.
     - destruct (load_value excl o); simpl; lia.
     - destruct (load_event excl j) as [[e id]|]; [|simpl; lia].
       destruct (fw_recv e).
-      + match goal with |- context [handler ?x] => destruct (handler x) as [|r|[|]] end; cbv zeta;
+      + match goal with |- context [handler ?x] => destruct (handler x) as [|r|r|[|]] end; cbv zeta;
           repeat match goal with |- context [if ?c then _ else _] => destruct c end;
           repeat match goal with |- context [match packet ?a ?b ?c with _ => _ end] => destruct (packet a b c) end;
           simpl; lia.
@@ -538,7 +538,7 @@ Section MetaP.
     change (is_value (event_data excl e id)) with (@None (list (list N * json))).
     rewrite (serial e id Hwf). change (fw_recv _) with (fw_recv e1). rewrite Hf.
     change (handler _) with (handler e2). cbv zeta.
-    destruct (handler e2) as [|r|late]; [congruence| |];
+    destruct (handler e2) as [|r|r|late]; [congruence| | |];
       (destruct (no_reply id); [reflexivity|]; destruct (packet dumps D _); reflexivity).
   Qed.
 
